@@ -25,6 +25,9 @@ CONSTANTS
   Filter,    \* filter statistics of the response, see Derived!Fraction
   Overlaps,  \* TRUE: the response carries overlap / valid_overlap measures for its MR columns
   SimMode,   \* TRUE under `tlc -simulate`: one random respondent per step
+  WDen,      \* weight denominator: a respondent with key weight w carries the weight
+             \* w / WDen (1: integer weights; 2, 4: fractional weights that binary
+             \* floating point represents exactly)
   Batches    \* set of positive integers: how many identical respondents one Interview
              \* step may add ({1} in exhaustive search; larger batches in simulation give
              \* tables with enough cases for significance tests to fire)
@@ -145,4 +148,16 @@ TypeOK == /\ DOMAIN data \subseteq KeySet
 SumResp(f(_)) == MapThenSumSet(LAMBDA k : data[k] * f(k), DOMAIN data)
 
 TotalW == SumResp(LAMBDA k : k.w)
+
+\* the weighted statistic of the response ("n" for an unweighted response)
+WS == IF Weighted THEN "w" ELSE "n"
+
+\* The sums above are integers: sums of the KEY weights.  A respondent's weight is
+\* k.w / WDen, so a statistic st is worth its integer sum over WScale(st).
+WScale(st) == CASE st = "n" -> 1 [] st = "w" -> WDen [] st = "w2" -> WDen * WDen
+RSt(x, st)  == Norm(<<x, WScale(st)>>)
+RW(x)      == Norm(<<x, WDen>>)        \* a sum of weights, or of weight x value
+\* the integer sum (at the scale of statistic st) behind a finite rational RSt(x, st)
+IntAt(r, st) == r[1] * (WScale(st) \div r[2])
+
 =============================================================================
